@@ -7,7 +7,8 @@
    the code bit for bit by the harness; the rounding gap between the two is
    measured, not proved. *)
 From Coq Require Import String List ZArith QArith Bool.
-From PV Require Import Lib.Strings Model.Peoe Proofs.Peoe.
+From PV Require Import Lib.Strings Lib.Decimal Model.Peoe Proofs.Peoe Proofs.PeoeRelabel Model.Mol2Read Proofs.Mol2Read.
+From PV Require Model.PqrFormat.
 Import ListNotations.
 
 Theorem C16_QA_laws : QLaws QA.
@@ -211,6 +212,190 @@ Proof.
     split; [vm_compute; reflexivity|]. split; vm_compute; reflexivity.
 Qed.
 
+(* ======================================================================== *)
+(* From the MOL2 TEXT to the input of assign_parameters (Model/Mol2Read.v:
+   Mol2Molecule.read / parse_atoms / parse_bonds at line and word level).
+   [float_ok] = "float(word) does not raise" is an arbitrary oracle; [co] =
+   false is the code as it is, true the code with the repair of C16-F5. *)
+
+(* permuting the atoms of a molecule permutes the (radius, charge) list of
+   assign_parameters exactly and raises iff the original raises: the
+   composition of C16_peoe_equivariant, C16_formal_charge_equivariant and the
+   per-type radius lookup, for ALL molecules and cycle counts (exact field) *)
+Theorem C16_assign_parameters_relabel :
+  forall (m : mol) (ncyc : nat) (sigma tau : nat -> nat),
+  (forall i, (i < m_n m)%nat -> (sigma i < m_n m)%nat) ->
+  (forall k, (k < m_n m)%nat -> (tau k < m_n m)%nat) ->
+  (forall i, (i < m_n m)%nat -> tau (sigma i) = i) ->
+  (forall k, (k < m_n m)%nat -> sigma (tau k) = k) ->
+  mol_ok m = true ->
+  match assign_parameters_n QA m ncyc, assign_parameters_n QA (relabel m sigma tau) ncyc with
+  | Some ps, Some ps' => forall i, (i < m_n m)%nat -> nth_error ps' (sigma i) = nth_error ps i
+  | None, None => True
+  | _, _ => False
+  end.
+Proof. exact assign_parameters_relabel. Qed.
+
+(* THE ROUND TRIP, for ALL molecules of the reader's domain: every field a
+   blank-free word without '@', coordinates (and charge) numbers for float(),
+   Sybyl type in normalised spelling, residue name <= 4 characters, distinct
+   atom names, bond endpoints among the atoms, bond types 1 2 3 ar - ANY number
+   of atoms and bonds, connectivity, multiple and self bonds, atom ids and bond
+   ids - and for every header that has no ATOM marker and every trailer:
+   reading the canonical Tripos rendering returns exactly the molecule.  So the
+   reader neither drops, duplicates, reorders nor re-wires atoms or bonds, and
+   no column is taken for another (name, x y z, type, subst id, subst name,
+   charge; bond id, both atom ids, bond type). *)
+Theorem C16_mol2_read_roundtrip :
+  forall (float_ok : string -> bool) (co : bool) (hdr trailer : list string) (m : molecule),
+  Forall (fun l => contains marker_atom l = false) hdr ->
+  wf_molecule float_ok co m ->
+  mol_of_text float_ok co (mol2_text_with hdr trailer m) = Ok m /\
+  mol_of_text float_ok co (mol2_text m) = Ok m /\
+  (forall i j, In j (nbrs (m_pairs (to_mol m)) i) <-> In i (nbrs (m_pairs (to_mol m)) j)).
+Proof.
+  intros float_ok co hdr trailer m Hh Hwf.
+  split; [exact (mol2_read_roundtrip_with float_ok co hdr trailer m Hh Hwf)|].
+  split; [exact (mol2_read_roundtrip float_ok co m Hwf) | exact (adjacency_symmetric m)].
+Qed.
+
+(* ATOM records permuted (the atom at position i moves to sigma i, ids
+   renumbered 1..n) with the bond atom ids renumbered consistently, BOND lines
+   in their order: the reader returns the permuted molecule - every atom with
+   its own name, type, coordinates and charge at its new place, and the input
+   of assign_parameters is the relabelled molecule of C16_peoe_equivariant *)
+Theorem C16_mol2_order_equivariance :
+  forall (float_ok : string -> bool) (co : bool) (m : molecule) (sigma tau : nat -> nat),
+  let n := length (ml_atoms m) in
+  (forall i, (i < n)%nat -> (sigma i < n)%nat) ->
+  (forall k, (k < n)%nat -> (tau k < n)%nat) ->
+  (forall i, (i < n)%nat -> tau (sigma i) = i) ->
+  (forall k, (k < n)%nat -> sigma (tau k) = k) ->
+  wf_molecule float_ok co m ->
+  mol_of_text float_ok co (mol2_text (permute m sigma tau)) = Ok (permute m sigma tau) /\
+  to_mol (permute m sigma tau) = relabel (to_mol m) sigma tau /\
+  (forall i, (i < n)%nat ->
+     let a := nth i (ml_atoms m) dummy_atom in
+     let a' := nth (sigma i) (ml_atoms (permute m sigma tau)) dummy_atom in
+     ra_name a' = ra_name a /\ ra_type a' = ra_type a /\ ra_x a' = ra_x a /\ ra_y a' = ra_y a /\
+     ra_z a' = ra_z a /\ ra_charge a' = ra_charge a /\ ra_serial a' = Z.of_nat (S (sigma i))).
+Proof. intros float_ok co m sigma tau n. exact (mol2_order_equivariance float_ok co m sigma tau). Qed.
+
+(* TEXT -> CHARGES is independent of the order of the ATOM records: the
+   (radius, charge) assigned to an atom from the reordered text is IDENTICAL
+   to the one assigned from the original text, and one text is refused iff the
+   other is.  PARTIAL in two declared respects: (a) exact arithmetic (instance
+   QA; the binary64 instance is tied to CPython bit for bit by the harness, and
+   the harness runs the same metamorphic test on the real code), (b) texts in
+   canonical rendering (other spellings of the same records - column widths,
+   tabs, CRLF, comment lines, extra fields - are covered by the tie).  No
+   tie-freeness condition is needed HERE: BOND lines keep their order, and the
+   only order-dependent rule of formal_charge (phosphate) walks BOND lines,
+   not atoms.  Reordering BOND lines is a different statement: it holds only up
+   to an exchange between the equivalent oxygens of a phosphate (notes, (i)). *)
+Theorem C16_text_order_independent_partial :
+  forall (float_ok : string -> bool) (co : bool) (m : molecule) (sigma tau : nat -> nat) (ncyc : nat),
+  let n := length (ml_atoms m) in
+  (forall i, (i < n)%nat -> (sigma i < n)%nat) ->
+  (forall k, (k < n)%nat -> (tau k < n)%nat) ->
+  (forall i, (i < n)%nat -> tau (sigma i) = i) ->
+  (forall k, (k < n)%nat -> sigma (tau k) = k) ->
+  wf_molecule float_ok co m ->
+  exists m1 m2,
+    mol_of_text float_ok co (mol2_text m) = Ok m1 /\
+    mol_of_text float_ok co (mol2_text (permute m sigma tau)) = Ok m2 /\
+    match assign_parameters_n QA (to_mol m1) ncyc, assign_parameters_n QA (to_mol m2) ncyc with
+    | Some ps, Some ps' => forall i, (i < n)%nat -> nth_error ps' (sigma i) = nth_error ps i
+    | None, None => True
+    | _, _ => False
+    end.
+Proof.
+  intros float_ok co m sigma tau ncyc n H1 H2 H3 H4 Hwf.
+  exact (text_order_independent float_ok co m sigma tau H1 H2 H3 H4 Hwf ncyc).
+Qed.
+
+(* renaming the atoms (any distinct blank-free names without '@'): the text is
+   read back as the renamed molecule; the input of assign_parameters - hence
+   every radius and charge, in any arithmetic - does not change *)
+Theorem C16_mol2_names_irrelevant :
+  forall (float_ok : string -> bool) (co : bool) (m : molecule) (names : list string),
+  wf_molecule float_ok co m ->
+  length names = length (ml_atoms m) -> Forall (fun w => good_word w = true) names -> NoDup names ->
+  mol_of_text float_ok co (mol2_text (rename m names)) = Ok (rename m names) /\
+  to_mol (rename m names) = to_mol m /\
+  map ra_name (ml_atoms (rename m names)) = names /\
+  (forall A (ops : Arith A) ncyc,
+     assign_parameters_n ops (to_mol (rename m names)) ncyc = assign_parameters_n ops (to_mol m) ncyc).
+Proof. exact mol2_names_irrelevant. Qed.
+
+(* FULL STATEMENT, refuted: "in an accepted file every bond atom id k denotes
+   the k-th ATOM record".  Witness: BOND record `1 1 0 1` in a 3-atom molecule
+   is accepted and bonds atom 1 to atom 3 (atom_names[0 - 1]).  Atom id 0 is not
+   a MOL2 atom id, so the input is outside the property's quantifier: an
+   OBSERVATION about error handling, not a finding. *)
+Theorem C16_mol2_bond_id_zero_refuted :
+  exists (lines : list string) (m : molecule),
+    In "1 1 0 1"%string lines /\
+    mol_of_text py_float_ok false lines = Ok m /\
+    length (ml_atoms m) = 3%nat /\
+    ml_bonds m = [mkrbond 1 0 2 Single].
+Proof. exact mol2_bond_id_zero_refuted. Qed.
+
+(* ... the guard: an accepted BOND record with atom ids in 1..n denotes exactly
+   those ATOM records and its type word is one of 1 2 3 ar; the only other
+   accepted ids are -n < id <= 0, counted from the end *)
+Theorem C16_mol2_bond_ids_partial :
+  forall (n : nat) (w0 w1 w2 w3 : string) (more : list string) (b : rbond) (i1 i2 : Z),
+  parse_bond_words n (w0 :: w1 :: w2 :: w3 :: more) = Ok b ->
+  PqrFormat.py_int w1 = Some i1 -> PqrFormat.py_int w2 = Some i2 ->
+  (((1 <= i1 <= Z.of_nat n)%Z /\ Z.of_nat (rb_a1 b) = (i1 - 1)%Z) \/
+   ((- Z.of_nat n < i1 <= 0)%Z /\ Z.of_nat (rb_a1 b) = (Z.of_nat n + i1 - 1)%Z)) /\
+  (((1 <= i2 <= Z.of_nat n)%Z /\ Z.of_nat (rb_a2 b) = (i2 - 1)%Z) \/
+   ((- Z.of_nat n < i2 <= 0)%Z /\ Z.of_nat (rb_a2 b) = (Z.of_nat n + i2 - 1)%Z)) /\
+  bond_word w3 = Ok (rb_type b).
+Proof. exact mol2_bond_ids_partial. Qed.
+
+(* FULL STATEMENT, refuted for the code as it is (co = false): "every MOL2
+   molecule with supported fields is read".  The charge field of an ATOM record
+   is optional in the Tripos format and the code guards the access - with
+   `len(line) > 8`, the number of CHARACTERS: an 8-word record raises IndexError
+   (finding C16-F5).  With `len(words) > 8` (co = true) the same text is read
+   back, as an instance of the round trip. *)
+Theorem C16_mol2_eight_words_refuted :
+  wf_molecule py_float_ok true ethanolish_nocharge /\
+  mol_of_text py_float_ok false (mol2_text ethanolish_nocharge) = Raise IndexError /\
+  mol_of_text py_float_ok true (mol2_text ethanolish_nocharge) = Ok ethanolish_nocharge.
+Proof. exact mol2_eight_words_refuted. Qed.
+
+(* non-vacuity of the text-level theorems: a 3-atom molecule in the domain of
+   the code as it is, a 3-cycle of its atoms satisfying the four permutation
+   hypotheses, the canonical text of the permuted molecule, and the charges
+   from both texts (2 cycles, exact): succeeded, non-zero, moved with the atoms *)
+Example C16_mol2_nonvacuous :
+  let sigma := fun i => match i with 0 => 1 | 1 => 2 | 2 => 0 | k => k end%nat in
+  let tau := fun i => match i with 1 => 0 | 2 => 1 | 0 => 2 | k => k end%nat in
+  wf_molecule py_float_ok false ethanolish /\
+  forallb (fun i => (sigma i <? 3)%nat && (tau i <? 3)%nat && (tau (sigma i) =? i)%nat && (sigma (tau i) =? i)%nat)
+          (seq 0 3) = true /\
+  mol2_text (permute ethanolish sigma tau) =
+    ["@<TRIPOS>MOLECULE"; "ligand"; "3 2 1 0 0"; "SMALL"; "USER_CHARGES"; ""; "@<TRIPOS>ATOM";
+     "1 H1 2.0 0.5 0.0 H 1 LIG 0.0"; "2 C1 0.0 0.0 0.0 C.3 1 LIG 0.0"; "3 O1 1.4 0.0 0.0 O.3 1 LIG 0.0";
+     "@<TRIPOS>BOND"; "1 2 3 1"; "2 3 1 1"; "@<TRIPOS>SUBSTRUCTURE"; "1 LIG 1 TEMP 0 **** **** 0 ROOT"]%string /\
+  (exists ps ps', assign_parameters_n QA (to_mol ethanolish) 2 = Some ps /\
+                  assign_parameters_n QA (to_mol (permute ethanolish sigma tau)) 2 = Some ps' /\
+                  forallb (fun p => negb (Qeq_bool (snd p) 0)) ps = true /\
+                  ps <> ps' /\ nth_error ps' 1 = nth_error ps 0) /\
+  mol_of_string py_float_ok false
+    ("@<TRIPOS>MOLECULE" ++ nl ++ "x" ++ nl ++ "@<TRIPOS>ATOM" ++ nl ++ "1 C1 0 0 0 c.3 1 LIGAND 0" ++ nl)%string
+    = Ok (mkmolecule [mkratom 1 "C1" "0" "0" "0" "C.3" 1 "LIGA" (Some "0"%string)] []).
+Proof.
+  cbv zeta. split; [exact ethanolish_wf|]. split; [vm_compute; reflexivity|]. split; [vm_compute; reflexivity|].
+  split; [|vm_compute; reflexivity].
+  eexists. eexists. split; [vm_compute; reflexivity|]. split; [vm_compute; reflexivity|].
+  split; [vm_compute; reflexivity|]. split; [|vm_compute; reflexivity].
+  intro H. discriminate H.
+Qed.
+
 Print Assumptions C16_QA_laws.
 Print Assumptions C16_peoe_conserves.
 Print Assumptions C16_peoe_zero_cycles.
@@ -224,3 +409,12 @@ Print Assumptions C16_transfer_other_residues_untouched_fallback.
 Print Assumptions C16_transfer_old_loop_refuted.
 Print Assumptions C16_formal_charge_equivariant.
 Print Assumptions C16_nonvacuous.
+Print Assumptions C16_assign_parameters_relabel.
+Print Assumptions C16_mol2_read_roundtrip.
+Print Assumptions C16_mol2_order_equivariance.
+Print Assumptions C16_text_order_independent_partial.
+Print Assumptions C16_mol2_names_irrelevant.
+Print Assumptions C16_mol2_bond_id_zero_refuted.
+Print Assumptions C16_mol2_bond_ids_partial.
+Print Assumptions C16_mol2_eight_words_refuted.
+Print Assumptions C16_mol2_nonvacuous.
